@@ -96,6 +96,9 @@ def run_groups(ctx, pool, groups, tag, stats, shrink_budget, futs=None):
             d_perm = None if inv.get("ties") and inv["f"] != "rank" else A.perm_diff(ea, eb)
             if d_model is None and d_perm is None:
                 continue
+            if not ea["ok"] and tuple(ea["err"])[0] == "Syntax":   # the generator wrote something the grammar rejects: a harness defect, never a finding
+                ctx.oblige("K: generated statement is accepted by the engine's parser", False, f"DS_r <- {cj['vtl']}; :: {ea['msg'][:200]}")
+                continue
             stats["disagreements"] += 1
             kind = "perm" if d_perm else "value"
             key = inv.get("known") or A.stable_key(inv, kind)
